@@ -128,7 +128,7 @@ def _naming(obs, spec, lw):
                 obs.bad("C05/single-well-default", f"single-well labware {spec['name']!r}: default component name {nm!r}")
     elif (spec["kind"] == "plate" and spec["rows"] > 1) or (spec["kind"] == "trough" and spec["cols"] > 1 and not spec.get("legacy")):
         if len(set(defaults.values())) != len(defaults):
-            obs.bad("C05/default-names-collide", f"{spec['name']}: default component names are not pairwise distinct: {sorted(defaults.values())[:6]}")
+            obs.bad("C05/default-names-collide", f"{spec['name']}: default component names are not pairwise distinct: {sorted(map(repr, defaults.values()))[:6]}")
     if explicit and len(set(explicit.values())) < len(explicit):
         obs.cls("shared-names")
 
